@@ -296,7 +296,7 @@ func (c *Collection) WriteUpdateWithXattrs(
 			}
 			return previous.Cas, err
 		}
-		var exp Exp
+		exp := exp // the caller's expiry, unless this attempt's callback gives one
 		if updatedDoc.Expiry != nil {
 			exp = *updatedDoc.Expiry
 		}
